@@ -612,6 +612,12 @@ pub fn gen_fk_tables(rng: &mut Rng, sw: &Swarm) -> Vec<TableDef> {
                 }
             }
         }
+        else if parent == "t0" && rng.chance(1, 3) {
+            // a child that references the same parent through two foreign keys with the same actions
+            // (sender / receiver): one parent row is reached through both keys, also within one child row
+            let (d, u) = (t2.fks[0].on_delete, t2.fks[0].on_update);
+            t2.fks.push(Fk { col: 2, parent: "t0".into(), parent_col: "c0".into(), on_delete: d, on_update: u });
+        }
         out.push(t2);
     }
     out
